@@ -182,6 +182,20 @@ example : lookup exT (toNibbles [0x12]) = some [7] :=
   proof_sound toyH toyH_len exT exT_bounded (by decide) [0x12]
     ((getProof toyH exT [1,2]).getD []) [7] (by decide) (by decide)
 
+/-- C10.7 (reload from storage, read path): a trie reopened from its root hash (`NewTrie(NewHashNode(root))`)
+over ANY store that holds at least the flushed nodes of `t` and has no hash collision reads exactly
+the contents of `t`: whatever `Get` finds is stored, and every stored key is found once enough nodes
+may be loaded. (`walk` = `getWithPath` from `HashNode(root)` with lazy loading; the store may hold
+arbitrary other byte strings, e.g. nodes of other roots.) -/
+theorem reopen_get (H : Bytes → Bytes) (h32 : ∀ b, (H b).length = 32) (t : Node) (hb : Bounded t)
+    (hne : t.isEmpty = false) (store : List Bytes) (hst : ∀ e ∈ nodeEncs H t, e ∈ store)
+    (hcf : CollFree H store) (p : Path) (v : Val) :
+    (∀ fuel, walk H store fuel (hash H t) p = .found v → lookup t p = some v) ∧
+    (lookup t p = some v → ∃ n, ∀ fuel, n ≤ fuel → walk H store fuel (hash H t) p = .found v) :=
+  Mpt.reopen_get h32 t hb hne store hst hcf p v
+
+example : walk toyH (nodeEncs toyH exT) 5 (hash toyH exT) [1,3] = .found [8] := by decide
+
 /-- the limits of `Put` (trie.go:147-152) give `Bounded`. -/
 theorem bounded_of_contents (t : Node) (hw : WF t)
     (h : ∀ p v, lookup t p = some v → p.length ≤ maxPathLength ∧ v.length ≤ maxValueLength) : Bounded t :=
